@@ -439,17 +439,20 @@ def pair_cfg(tier):
              "models": [None, [0, 1, 3], [0, 2, 3]], "kinds": ["K", "B7", "B67"]},
         ]
     return [
-        {"g": "a", "n": 2, "k": 2, "lr": [0, 5], "lq": [0, 5], "mb": [2, 2, 3], "spx": 2, "parts": 4},
+        {"g": "a", "n": 2, "k": 2, "lr": [0, 5], "lq": [0, 5], "mb": [2, 2, 2], "spx": 2, "parts": 4},
+        {"g": "a22", "n": 2, "k": 2, "lr": [0, 4], "lq": [0, 4], "mb": [2, 2, 4], "mbmin": 3, "spx": 2, "parts": 1},
         {"g": "b", "n": 2, "k": 3, "lr": [0, 5], "lq": [0, 5], "mb": [2, 2, 2], "spx": 2, "parts": 4},
         {"g": "b6", "n": 2, "k": 3, "lr": [6, 6], "lq": [3, 6], "mb": [1, 1, 1], "spx": 2, "parts": 2,
          "kinds": ["K", "B3", "B11"]},
         {"g": "b4", "n": 2, "k": 4, "lr": [3, 6], "lq": [3, 6], "mb": [1, 1, 1], "spx": 1, "parts": 3},
         {"g": "c", "n": 3, "k": 2, "lr": [0, 4], "lq": [0, 4], "mb": [1, 1, 1], "spx": 2, "parts": 4},
+        {"g": "c11", "n": 3, "k": 2, "lr": [0, 3], "lq": [0, 3], "mb": [1, 1, 2], "mbmin": 2, "spx": 2, "parts": 1},
         {"g": "c3", "n": 3, "k": 3, "lr": [2, 4], "lq": [2, 4], "mb": [1, 1, 1], "spx": 1, "parts": 3},
         {"g": "d", "n": 4, "k": 2, "lr": [0, 4], "lq": [0, 3], "mb": [1, 1, 1], "spx": 2, "parts": 4},
-        {"g": "e", "n": 4, "k": 3, "lr": [3, 4], "lq": [3, 4], "mb": [1, 0, 1], "spx": 1, "parts": 6,
+        {"g": "e", "n": 4, "k": 3, "lr": [3, 4], "lq": [3, 4], "mb": [0, 0, 0], "spx": 1, "parts": 4,
          "kinds": ["K", "B1", "B7", "B67"]},
-        {"g": "f", "n": 5, "k": 2, "lr": [1, 3], "lq": [1, 3], "mb": [1, 1, 1], "spx": 1, "parts": 2},
+        {"g": "f", "n": 5, "k": 2, "lr": [2, 3], "lq": [2, 3], "mb": [0, 0, 0], "spx": 1, "parts": 2,
+         "kinds": ["K", "B3", "B23", "B29"]},
     ]
 
 
@@ -606,6 +609,7 @@ def run_pair(shard, ctx):
     sp, tk = shard["sp"], shard["tk"]
     env = Env(g["n"], ctx.seed, g["k"], sp)
     mbr, mbq, mbt = g["mb"]
+    mbmin = g.get("mbmin", 0)  # lower bound on the mask bits of a pair (keeps groups disjoint)
     if env.tn != env.n:
         raise RuntimeError("pair shards use the sequence alphabet")
     qcases = [prep_query(env, tk, s, m) for s, m in pair_cases(g["n"], g["lq"][0], g["lq"][1], mbq) if env.codes_ok(ctx, s)]
@@ -623,7 +627,7 @@ def run_pair(shard, ctx):
             continue
         nr = len(rm)
         for q in qcases:
-            if nr + len(q.mask) > mbt:
+            if nr + len(q.mask) > mbt or nr + len(q.mask) < mbmin:
                 continue
             js = pre + ',"q":%s,"qmask":%s}' % (list(q.codes), list(q.mask))
             if not ctx.journal(js):
@@ -1524,8 +1528,8 @@ def sel_cfg(tier):
     q = tier == "quick"
     return {
         "min": [
-            {"n": 2, "k": 2, "models": [None, [0, 2]], "L": 11 if q else 13, "perms": PERMS},
-            {"n": 2, "k": 3, "models": [None, [0, 1, 3]], "L": 10 if q else 13, "perms": PERMS},
+            {"n": 2, "k": 2, "models": [None, [0, 2]], "L": 11 if q else 12, "perms": PERMS},
+            {"n": 2, "k": 3, "models": [None, [0, 1, 3]], "L": 10 if q else 12, "perms": PERMS},
             {"n": 3, "k": 2, "models": [None], "L": 6 if q else 8, "perms": PERMS},
             {"n": 4, "k": 2, "models": [None], "L": 5 if q else 7, "perms": ("none", "freq_cyc", "random", "neg") if q else PERMS},
         ],
